@@ -14,7 +14,7 @@ EXTENDS Naturals, Sequences, FiniteSets, TLC, FiniteSetsExt, Functions
 CONSTANT Tier
 
 Flows == {"authorize", "authorizeHint", "authorizeUnregistered", "callbackCode", "callbackImplicit", "callbackIDToken", "callbackFormPost", "codeExchange", "codeExchangeJWT", "codeExchangePKJWT",
-          "refresh", "refreshJWT", "clientCreds", "jwtBearer", "exchangeAccess", "exchangeRefresh", "exchangeID", "exchangeActor",
+          "refresh", "refreshJWT", "clientCreds", "jwtBearer", "exchangeAccess", "exchangeJWT", "exchangeRefresh", "exchangeID", "exchangeActor",
           "deviceAuthorize", "pollApproved", "pollPending", "userinfoOpaque", "userinfoJWT", "introspectOpaque", "introspectJWT",
           "revokeOpaque", "revokeJWT", "revokeRefresh", "endSession", "endSessionNoHint"}
 MaxK == IF Tier = "quick" THEN 12 ELSE 16
